@@ -28,6 +28,10 @@ CONN_VALUES = [None, None, None, b"keep-alive", b"close", b"Close", b"CLOSE", b"
 
 def _app(rng, tag, mode):
     start = {"type": "http.response.start", "status": 200, "headers": [(b"x-tag", b"%d" % tag)]}
+    if rng.random() < 0.2:
+        # legal and redundant: the application itself says keep-alive (the server's own decisions - the per-connection maximum, the
+        # client's close - must not depend on whether the application already named the header)
+        start["headers"].append((rng.choice([b"connection", b"Connection"]), rng.choice([b"keep-alive", b"Keep-Alive", b"keep-alive, x-foo"])))
     body = {"type": "http.response.body", "body": b"resp-%d" % tag, "more_body": False}
     if mode == "after":
         return [["recv_until_end"], ["send", start], ["send", body]]
